@@ -421,6 +421,15 @@ def fam_restart(tier, outdir):
     return run_tlc_export("restart", "MC_Restart", cfg, outdir, tier, asan_stride=8)
 
 
+def fam_two(tier, outdir):
+    consts = {"Handles": "{1, 2}", "MaxTime": 0, "MaxCalls": 6, "PipeCap": 4, "MaxOut": 0, "ExitCodes": "{3}", "TermDelay": 1}
+    if tier == "thorough":
+        consts.update({"MaxCalls": 8})
+    cfg = os.path.join(outdir, "MC_Two.cfg")
+    write_cfg(cfg, "Spec", consts, ["TypeOK", "LifeChild", "OwnStatus"], export_stride=1)
+    return run_tlc_export("two", "MC_Two", cfg, outdir, tier, asan_stride=8)
+
+
 def fam_poll(tier, outdir):
     consts = {"Handles": "{1, 2}", "MaxTime": 3, "MaxCalls": 6, "PipeCap": 4, "MaxOut": 1, "ExitCodes": "{3}", "TermDelay": 1,
               "DlOpts": "{0, 2}", "Timeouts": "{0, 2}", "Masks": "{10, 15}", "MaxSrc": 2, "MaxPolls": 1}
@@ -822,12 +831,12 @@ def run_tlc_plain(name, module, cfgpath, outdir, timeout=1500, workers=8):
     return st
 
 
-FAMILIES = {"restart": fam_restart, "threads": fam_threads, "conc": fam_conc, "wincmd": fam_wincmd, "wrapper": fam_wrapper, "faults": fam_faults, "env": lambda t, o: fam_launch("env", t, o), "wiring": lambda t, o: fam_launch("wiring", t, o), "options": lambda t, o: fam_launch("options", t, o),
+FAMILIES = {"two": fam_two, "restart": fam_restart, "threads": fam_threads, "conc": fam_conc, "wincmd": fam_wincmd, "wrapper": fam_wrapper, "faults": fam_faults, "env": lambda t, o: fam_launch("env", t, o), "wiring": lambda t, o: fam_launch("wiring", t, o), "options": lambda t, o: fam_launch("options", t, o),
             "destroy": fam_destroy, "status": fam_status, "run": fam_run, "stop": fam_stop, "life": fam_life, "poll": fam_poll, "stream": fam_stream, "drain": fam_drain}
 
 PROPS = {
-    "C01": {"families": ["status", "stop"], "title": "exit status exact, stable, reaped once"},
-    "C06": {"families": ["stop", "faults"], "title": "only the own unreaped child is signalled or waited for"},
+    "C01": {"families": ["status", "stop", "two"], "title": "exit status exact, stable, reaped once"},
+    "C06": {"families": ["stop", "faults", "two"], "title": "only the own unreaped child is signalled or waited for"},
     "C07": {"families": ["stop"], "title": "stop sequences"},
     "C03": {"families": ["env"], "title": "launch fidelity: argv, environment, working directory, program resolution"},
     "C12": {"families": ["env", "faults"], "title": "start leaves the caller untouched and gives the child a clean signal state"},
